@@ -23,11 +23,13 @@ thresholds in range, which `Threshold::new` guarantees).  For mixed time locks a
 unsatisfiability the defect is the library's own analysis (`…_model`); the semantic statement
 is `def switch_exact_mixed_time_locks_full`.
 
-T1/T4: since fix 8a19a019 (`top_level_type_check` tests the base type again) the wsh/sh/bare
-wrappers and descriptor parsers guarantee a type-B top level (`wrapper_obeys_ctx_partial`).
-They still never call `validate`, so T1/T4 remain FALSE for them in three respects (`d:`/`or_i`
-in `sh`, kind of `pk_h` keys, > 201 opcodes); `TapTree::leaf` + `Tr::new` still check nothing.
-The negations are proved on concrete witnesses, the strongest true statements are `_partial`.
+T1/T4 after the fixes 8a19a019 (base-type test), 4cd8ebfa (`pk_h` keys), a3413640
+(`new_sortedmulti`), 2d0df974 (`Tr::new`), f6816493 (`Wsh::new`/`Sh::new` call `validate`):
+every entry point obeys every context rule (`accepted_obeys_ctx`) with ONE exception that the
+library keeps on purpose: `Sh::new` / `sh(..)` validate with `Legacy::CONSENSUS` but leave `d:`
+and `or_i` allowed (F13; pinned by the library's own tests `display_prefers_u`,
+`regression_734`).  That gap is stated exactly: witness (`sh_accepts_or_i`), negation of the
+full statements, and the `_partial` theorems saying that nothing else is missing.
 -/
 import MsVerif.Lemmas.ValidateCtx
 import MsVerif.Lemmas.ValidateTypes
@@ -353,32 +355,21 @@ example : isOk (validate demoEnv demoK .segwitv0 { ValidationParams.MAX with max
 section T1
 variable (env : KeyEnv) (K : KeyInfo) (ctx : Ctx) (ms : Ms) (len : Ms → Nat)
 
-/-- `from_ast` (run on every node): multisig flavour, threshold and lock ranges, depth, script
-size, and the kinds of the keys it looks at (`pk_k`, `multi*`) obey the context.
+/-- `from_ast` (run on every node): every fragment rule of the context — key kinds (also of
+`pk_h` keys since fix 4cd8ebfa), multisig flavour, threshold and lock ranges, depth, script size.
 `hlen`: the library's size figure `pk_cost` is the real script length (C04/C09). -/
-theorem from_ast_obeys_ctx_partial (h : accepts env K ctx .fromAst ms = true)
+theorem from_ast_obeys_ctx (h : accepts env K ctx .fromAst ms = true)
     (hlen : (extOf env ctx ms).pkCost = len ms) :
-    ruleMulti ctx ms = true ∧ ruleRange ms = true ∧ ruleDepth ms = true ∧
-      ruleSize (factsFrom K len) ctx ms = true ∧ ruleKeysChecked (factsFrom K len) ctx ms = true := by
+    ctxFragOK (factsFrom K len) ctx ms = true := by
   simp only [accepts, Bool.and_true] at h
   obtain ⟨h1, h2, h3⟩ := constructed_rules env K ctx len ms h
-  refine ⟨h2, h1, constructed_depth env K ctx ms h, ?_, h3⟩
+  simp only [ctxFragOK, Bool.and_eq_true]
+  refine ⟨⟨⟨⟨h3, h2⟩, h1⟩, ?_⟩, constructed_depth env K ctx ms h⟩
   simp only [ruleSize, factsFrom, decide_eq_true_eq, ← hlen]
   exact constructed_size env K ctx ms h
 
-/-- the full statement: every fragment rule, including the kind of `pk_h` keys -/
-def from_ast_obeys_ctx_full : Prop :=
-  ∀ (env : KeyEnv) (K : KeyInfo) (ctx : Ctx) (ms : Ms) (len : Ms → Nat),
-    accepts env K ctx .fromAst ms = true → (extOf env ctx ms).pkCost = len ms →
-    ctxFragOK (factsFrom K len) ctx ms = true
-
-/-- … is FALSE: `check_global_consensus_validity` never looks at `pk_h` keys.  Witness:
-`Miniscript::<_, Segwitv0>::from_ast(Terminal::PkH(x-only key))` is accepted. -/
-theorem from_ast_obeys_ctx_false : ¬ from_ast_obeys_ctx_full := by
-  intro h
-  have := h demoEnv demoK .segwitv0 (.pkH 200)
-    (fun ms => (extOf demoEnv .segwitv0 ms).pkCost) (by decide) rfl
-  revert this; decide
+example : accepts demoEnv demoK .segwitv0 .fromAst (.pkH 200) = false ∧
+    accepts demoEnv demoK .segwitv0 .fromAst (.pkH 0) = true := by decide
 
 /-- the miniscript parsers / decoders (`from_str`, `from_str_insane`,
 `from_str_with_validation_params(_, &Ctx::CONSENSUS)`, `decode`, `decode_consensus`) and the
@@ -445,7 +436,85 @@ theorem accepted_obeys_ctx_tr (e : Entry) (he : e = .trFromStr ∨ e = .descFrom
   · exact h
   · exact ⟨h.1, h.2.1⟩
 
-/-- the full statement for ALL entry points -/
+/-- everything a wrapper constructor / descriptor parser accepts was accepted by `from_ast`
+and passed `top_level_checks` -/
+theorem wrapper_imp_top (e : Entry) (he : e = .wrapper ∨ (e = .descFromStr ∧ ctx ≠ .tap))
+    (h : accepts env K ctx e ms = true) :
+    constructed env K ctx ms = true ∧ topLevelChecks K ctx ms = true := by
+  rcases he with rfl | ⟨rfl, hne⟩
+  · simp only [accepts, Bool.and_eq_true] at h; exact ⟨h.1, h.2.1⟩
+  · cases ctx <;> simp_all [accepts]
+
+/-- where MINIMALIF is enforced there is no restriction on `d:` / `or_i` -/
+theorem ruleCond_of_minimalIf (h : minimalIf ctx = true) : ruleCond ctx ms = true := by
+  simp only [ruleCond, everyNode_eq, List.all_eq_true]
+  intro m _
+  cases m <;> simp [condAllowed, h]
+
+/-- the bare templates (`c:pk_k`, `c:pk_h`, `c:expr_raw_pkh`, `multi` with n ≤ 3) contain no
+conditional -/
+theorem ruleCond_of_bareTemplate (h : bareTemplate ms = true) : ruleCond .bare ms = true := by
+  unfold bareTemplate at h
+  split at h <;> first | rfl | simp at h
+
+/-- `Wsh::new` / `Sh::new` / `Sh::new_wsh` / `Bare::new` / `Descriptor::new_*` /
+`*::new_sortedmulti` and `Descriptor::from_str` of `wsh(..)`, `sh(..)`, `sh(wsh(..))`, bare:
+R1 (type-B top level) and ALL fragment rules hold in every context; R4 (`d:`/`or_i`) holds in
+every context except legacy. -/
+theorem wrapper_obeys_ctx_partial (e : Entry)
+    (he : e = .wrapper ∨ (e = .descFromStr ∧ ctx ≠ .tap))
+    (h : accepts env K ctx e ms = true) (hlen : (extOf env ctx ms).pkCost = len ms) :
+    ruleTopB ctx ms = true ∧ ctxFragOK (factsFrom K len) ctx ms = true ∧
+      (ctx ≠ .legacy → ruleCond ctx ms = true) := by
+  obtain ⟨hc, htop⟩ := wrapper_imp_top env K ctx ms e he h
+  have hfa : accepts env K ctx .fromAst ms = true := by simp [accepts, hc]
+  have hfrag := from_ast_obeys_ctx env K ctx ms len hfa hlen
+  have hrange : ruleRange ms = true := (constructed_rules env K ctx len ms hc).1
+  simp only [topLevelChecks, topLevelTypeCheck, Bool.and_eq_true] at htop
+  obtain ⟨⟨hB, _⟩, hbare⟩ := htop
+  refine ⟨?_, hfrag, ?_⟩
+  · cases hty : typeOf ms with
+    | none => simp [hty] at hB
+    | some ty =>
+      obtain ⟨τ, ht1, ht2, _, _⟩ := typeBridge_of_ranges ctx ms hrange ty hty
+      simp only [hty] at hB
+      simp only [ruleTopB, ht1, ht2, hB]
+  · intro hne
+    cases ctx with
+    | legacy => exact absurd rfl hne
+    | bare => exact ruleCond_of_bareTemplate ms hbare
+    | segwitv0 => exact ruleCond_of_minimalIf .segwitv0 ms rfl
+    | tap => exact ruleCond_of_minimalIf .tap ms rfl
+
+/-- T1 for ALL entry points: everything accepted obeys every rule of its context, except that
+the `sh` wrapper / `sh(..)` parser do not enforce R4 (`d:`/`or_i` in legacy, F13) -/
+theorem accepted_obeys_ctx (e : Entry) (he : e ≠ .fromAst)
+    (hsh : ¬ (ctx = .legacy ∧ (e = .wrapper ∨ e = .descFromStr)))
+    (h : accepts env K ctx e ms = true) (hlen : (extOf env ctx ms).pkCost = len ms) :
+    ctxOK (factsFrom K len) ctx ms = true := by
+  have hw : ∀ e', (e' = .wrapper ∨ (e' = .descFromStr ∧ ctx ≠ .tap)) → ctx ≠ .legacy →
+      accepts env K ctx e' ms = true → ctxOK (factsFrom K len) ctx ms = true := by
+    intro e' he' hne h'
+    obtain ⟨h1, h2, h3⟩ := wrapper_obeys_ctx_partial env K ctx ms len e' he' h' hlen
+    simp only [ctxOK, Bool.and_eq_true]
+    exact ⟨⟨h1, h3 hne⟩, h2⟩
+  cases e with
+  | fromAst => exact absurd rfl he
+  | msSane => exact accepted_obeys_ctx_sane env K ctx ms len h hlen
+  | msConsensus => exact accepted_obeys_ctx_consensus env K ctx ms len h hlen
+  | msInsane => exact accepted_obeys_ctx_insane env K ctx ms len h hlen
+  | trFromStr | trNew =>
+    apply accepted_obeys_ctx_consensus env K ctx ms len _ hlen
+    simpa only [accepts] using h
+  | wrapper =>
+    exact hw .wrapper (Or.inl rfl) (fun hc => hsh ⟨hc, Or.inl rfl⟩) h
+  | descFromStr =>
+    by_cases ht : ctx = .tap
+    · subst ht
+      exact accepted_obeys_ctx_tr env K ms len .descFromStr (Or.inr rfl) h hlen
+    · exact hw .descFromStr (Or.inr ⟨rfl, ht⟩) (fun hc => hsh ⟨hc, Or.inr rfl⟩) h
+
+/-- the full statement (no exception for `sh`) -/
 def accepted_obeys_ctx_full : Prop :=
   ∀ (env : KeyEnv) (K : KeyInfo) (ctx : Ctx) (e : Entry) (ms : Ms) (len : Ms → Nat),
     e ≠ .fromAst → accepts env K ctx e ms = true →
@@ -453,128 +522,86 @@ def accepted_obeys_ctx_full : Prop :=
 
 end T1
 
-/-- what remains of F5: `TapTree::leaf` + `Tr::new` make no check on the leaf; a leaf that is
-not a complete boolean script (type K here) is accepted.  (`Wsh::new`, `Sh::new`, … now reject
-it: `wrapper_obeys_ctx_partial`.) -/
-theorem tr_new_accepts_non_B :
-    accepts demoEnv demoK .tap .trNew (.pkK 200) = true ∧ ruleTopB .tap (.pkK 200) = false ∧
-    accepts demoEnv demoK .segwitv0 .wrapper (.pkK 0) = false ∧
-    accepts demoEnv demoK .legacy .descFromStr (.alt (.check (.pkK 0))) = false := by
-  decide
-
-/-- `sh(or_i(pk(A),pk(B)))`: accepted although `Legacy::CONSENSUS` forbids `or_i`;
-`wsh(pkh(<x-only key>))` / `wsh(pkh(<uncompressed key>))`: accepted although P2WSH admits
-compressed keys only -/
-theorem wrapper_accepts_other_violations :
+/-- F13, the remaining gap: `Sh::new(or_i(pk(A),pk(B)))` and
+`Descriptor::from_str("sh(or_i(pk(A),pk(B)))")` are accepted although `Legacy::CONSENSUS`
+forbids `or_i` (likewise `d:`); `Miniscript::<_, Legacy>::from_str*` reject them.
+(All other former witnesses are now rejected: non-B top level, `pk_h` of a forbidden key kind,
+non-B tap leaf through `Tr::new`.) -/
+theorem sh_accepts_or_i :
     accepts demoEnv demoK .legacy .descFromStr (.orI (.check (.pkK 0)) (.check (.pkK 1))) = true ∧
     accepts demoEnv demoK .legacy .wrapper (.orI (.check (.pkK 0)) (.check (.pkK 1))) = true ∧
+    accepts demoEnv demoK .legacy .wrapper
+      (.andV (.verify (.check (.pkK 0))) (.dupIf (.verify (.older 10)))) = true ∧
     ruleCond .legacy (.orI (.check (.pkK 0)) (.check (.pkK 1))) = false ∧
-    accepts demoEnv demoK .segwitv0 .wrapper (.check (.pkH 200)) = true ∧
-    accepts demoEnv demoK .segwitv0 .descFromStr (.check (.pkH 100)) = true ∧
-    ruleKeys (demoF .segwitv0) .segwitv0 (.check (.pkH 200)) = false ∧
-    ruleKeys (demoF .segwitv0) .segwitv0 (.check (.pkH 100)) = false := by
+    accepts demoEnv demoK .legacy .msConsensus (.orI (.check (.pkK 0)) (.check (.pkK 1))) = false ∧
+    -- regression: the witnesses of the repaired defects
+    accepts demoEnv demoK .segwitv0 .wrapper (.pkK 0) = false ∧
+    accepts demoEnv demoK .segwitv0 .wrapper (.check (.pkH 200)) = false ∧
+    accepts demoEnv demoK .segwitv0 .descFromStr (.check (.pkH 100)) = false ∧
+    accepts demoEnv demoK .tap .trNew (.pkK 200) = false := by
   decide
 
 theorem accepted_obeys_ctx_false : ¬ accepted_obeys_ctx_full := by
   intro h
-  have := h demoEnv demoK .segwitv0 .wrapper (.check (.pkH 200))
-    (fun ms => (extOf demoEnv .segwitv0 ms).pkCost) (by decide) (by decide) rfl
+  have := h demoEnv demoK .legacy .wrapper (.orI (.check (.pkK 0)) (.check (.pkK 1)))
+    (fun ms => (extOf demoEnv .legacy ms).pkCost) (by decide) (by decide) rfl
   revert this; decide
 
-/-- where MINIMALIF is enforced there is no restriction on `d:` / `or_i` -/
-theorem ruleCond_of_minimalIf (ctx : Ctx) (ms : Ms) (h : minimalIf ctx = true) :
-    ruleCond ctx ms = true := by
-  simp only [ruleCond, everyNode_eq, List.all_eq_true]
-  intro m _
-  cases m <;> simp [condAllowed, h]
-
-/-- `Wsh::new` / `Sh::new` / `Sh::new_wsh` / `Bare::new` / `Descriptor::new_*` and
-`Descriptor::from_str` of `wsh(..)`, `sh(..)`, `sh(wsh(..))`, bare: the top level is a complete
-boolean script (R1, restored by fix 8a19a019) and the fragment rules `from_ast` guarantees hold;
-under MINIMALIF contexts R4 holds trivially.  What remains open is exactly
-`wrapper_accepts_other_violations` (`d:`/`or_i` in `sh`, kinds of `pk_h` keys), which
-`ms.validate(&Ctx::CONSENSUS)` in `top_level_checks` would close (`accepted_obeys_ctx_consensus`). -/
-theorem wrapper_obeys_ctx_partial (env : KeyEnv) (K : KeyInfo) (ctx : Ctx) (ms : Ms)
-    (len : Ms → Nat) (e : Entry) (he : e = .wrapper ∨ (e = .descFromStr ∧ ctx ≠ .tap))
-    (h : accepts env K ctx e ms = true)
-    (hlen : (extOf env ctx ms).pkCost = len ms) :
-    ruleTopB ctx ms = true ∧ ruleMulti ctx ms = true ∧ ruleRange ms = true ∧
-      ruleDepth ms = true ∧ ruleSize (factsFrom K len) ctx ms = true ∧
-      ruleKeysChecked (factsFrom K len) ctx ms = true ∧
-      (minimalIf ctx = true → ruleCond ctx ms = true) := by
-  have htl : constructed env K ctx ms = true ∧ topLevelChecks K ctx ms = true := by
-    rcases he with rfl | ⟨rfl, hne⟩
-    · simpa only [accepts, Bool.and_eq_true] using h
-    · cases ctx <;> simp_all [accepts]
-  obtain ⟨hc, htop⟩ := htl
-  simp only [topLevelChecks, topLevelTypeCheck, Bool.and_eq_true] at htop
-  obtain ⟨⟨hB, _⟩, _⟩ := htop
-  have hfa : accepts env K ctx .fromAst ms = true := by simp [accepts, hc]
-  obtain ⟨h1, h2, h3, h4, h5⟩ := from_ast_obeys_ctx_partial env K ctx ms len hfa hlen
-  refine ⟨?_, h1, h2, h3, h4, h5, ruleCond_of_minimalIf ctx ms⟩
-  cases hty : typeOf ms with
-  | none => simp [hty] at hB
-  | some ty =>
-    obtain ⟨τ, ht1, ht2, _, _⟩ := typeBridge_of_ranges ctx ms h2 ty hty
-    simp only [hty] at hB
-    simp only [ruleTopB, ht1, ht2, hB]
-
-example : accepts demoEnv demoK .segwitv0 .wrapper (.pkK 0) = false ∧
-    accepts demoEnv demoK .segwitv0 .wrapper (.check (.pkK 0)) = true ∧
+example : accepts demoEnv demoK .segwitv0 .wrapper (.check (.pkK 0)) = true ∧
     accepts demoEnv demoK .segwitv0 .msSane (.check (.pkK 0)) = true ∧
-    ctxOK (demoF .segwitv0) .segwitv0 (.check (.pkK 0)) = true := by decide
+    ctxOK (demoF .segwitv0) .segwitv0 (.check (.pkK 0)) = true ∧
+    acceptsSortedMulti demoEnv demoK .segwitv0 1 [0, 1] = true ∧
+    acceptsSortedMulti demoEnv demoK .segwitv0 1 [100, 0] = false := by decide
 
 /-! ## T4 — what the descriptor parser accepts, the miniscript parser with the context's
 consensus parameters accepts -/
 
-/-- true for `tr(..)`: every leaf is validated with `Tap::CONSENSUS` (and `Tap::SANE`) -/
-theorem descriptor_accept_imp_consensus_tap (env : KeyEnv) (K : KeyInfo) (ms : Ms)
-    (h : accepts env K .tap .descFromStr ms = true) :
-    accepts env K .tap .msConsensus ms = true ∧ accepts env K .tap .msSane ms = true := by
-  simp only [accepts, Bool.and_eq_true] at h ⊢
-  exact ⟨⟨h.1, h.2.1⟩, ⟨h.1, h.2.2⟩⟩
+/-- `tr(..)`: every leaf is validated with `Tap::CONSENSUS` (and `Tap::SANE`);
+`wsh(..)` / `sh(wsh(..))`: `Wsh::new` validates with `Segwitv0::CONSENSUS` (fix f6816493) -/
+theorem descriptor_accept_imp_consensus (env : KeyEnv) (K : KeyInfo) (ctx : Ctx) (ms : Ms)
+    (hctx : ctx = .tap ∨ ctx = .segwitv0) (h : accepts env K ctx .descFromStr ms = true) :
+    accepts env K ctx .msConsensus ms = true := by
+  rcases hctx with rfl | rfl <;> simp only [accepts, wrapperValidate, Bool.and_eq_true] at h ⊢
+  · exact ⟨h.1, h.2.1⟩
+  · exact ⟨h.1, h.2.2⟩
+
+/-- `sh(..)`: accepted ⇒ accepted by the miniscript parser with `Legacy::CONSENSUS` relaxed on
+`d:`/`or_i` (`SH_PARAMS`), hence with `Legacy::CONSENSUS` itself whenever the script contains
+neither fragment (by T2: the two switches reject exactly those scripts) -/
+theorem descriptor_accept_imp_consensus_legacy_partial (env : KeyEnv) (K : KeyInfo) (ms : Ms)
+    (h : accepts env K .legacy .descFromStr ms = true) :
+    isOk (validate env K .legacy SH_PARAMS ms) = true ∧
+    (hasDefect_dupIf ms = false → hasDefect_orI ms = false →
+      accepts env K .legacy .msConsensus ms = true) := by
+  simp only [accepts, wrapperValidate, Bool.and_eq_true] at h ⊢
+  refine ⟨h.2.2, fun hd ho => ⟨h.1, ?_⟩⟩
+  have e : Ctx.CONSENSUS .legacy
+      = { ({ SH_PARAMS with allowDupIf := false } : ValidationParams) with allowOrI := false } := rfl
+  rw [e, switch_exact_or_i, switch_exact_dup_if, h.2.2, hd, ho]
+  rfl
 
 def descriptor_accept_imp_consensus_full : Prop :=
   ∀ (env : KeyEnv) (K : KeyInfo) (ctx : Ctx) (ms : Ms),
     accepts env K ctx .descFromStr ms = true → accepts env K ctx .msConsensus ms = true
 
-/-- still FALSE for `wsh`, `sh` and bare descriptors: no `validate` call is made for them.
-Witnesses: `sh(or_i(pk(A),pk(B)))` (`or_i` in legacy), `wsh(pkh(<x-only>))`, bare
-`pkh(<x-only>)` (key kinds).  (The non-B witness `wsh(pk_k(A))` is gone with fix 8a19a019.) -/
-theorem descriptor_accept_imp_consensus_false :
-    (accepts demoEnv demoK .segwitv0 .descFromStr (.pkK 0) = false) ∧
-    (accepts demoEnv demoK .legacy .descFromStr (.orI (.check (.pkK 0)) (.check (.pkK 1))) = true ∧
-      accepts demoEnv demoK .legacy .msConsensus (.orI (.check (.pkK 0)) (.check (.pkK 1))) = false) ∧
-    (accepts demoEnv demoK .segwitv0 .descFromStr (.check (.pkH 200)) = true ∧
-      accepts demoEnv demoK .segwitv0 .msConsensus (.check (.pkH 200)) = false) ∧
-    (accepts demoEnv demoK .bare .descFromStr (.check (.pkH 200)) = true ∧
-      accepts demoEnv demoK .bare .msConsensus (.check (.pkH 200)) = false) ∧
-    ¬ descriptor_accept_imp_consensus_full := by
-  refine ⟨by decide, by decide, by decide, by decide, fun h => ?_⟩
-  have := h demoEnv demoK .segwitv0 (.check (.pkH 200)) (by decide)
+/-- still FALSE for `sh(..)` (F13): `sh(or_i(pk(A),pk(B)))` is accepted,
+`Miniscript::<_, Legacy>::from_str_with_validation_params(_, &Legacy::CONSENSUS)` rejects it.
+For bare descriptors the implication holds on every script of the run (judge `t4`) but is not
+proved here (it needs the size/opcode figures of the five bare templates). -/
+theorem descriptor_accept_imp_consensus_false : ¬ descriptor_accept_imp_consensus_full := by
+  intro h
+  have := h demoEnv demoK .legacy (.orI (.check (.pkK 0)) (.check (.pkK 1))) (by decide)
   revert this; decide
 
-/-- the part of T4 the fix restores: whatever a wsh/sh/bare descriptor accepts passes the
-`allow_non_b = false` clause of every parameter set (its top level is type B) -/
-theorem descriptor_accept_imp_base_B (env : KeyEnv) (K : KeyInfo) (ctx : Ctx) (ms : Ms)
-    (hne : ctx ≠ .tap) (h : accepts env K ctx .descFromStr ms = true) : D_nonB ms = false := by
-  have htop : topLevelChecks K ctx ms = true := by cases ctx <;> simp_all [accepts]
-  simp only [topLevelChecks, topLevelTypeCheck, Bool.and_eq_true] at htop
-  obtain ⟨⟨hB, _⟩, _⟩ := htop
-  cases hty : typeOf ms with
-  | none => simp [hty] at hB
-  | some ty =>
-    simp only [hty, beq_iff_eq] at hB
-    simp [D_nonB, hty, hB]
-
-/-- what does hold for every context: the descriptor parser accepts only what `from_ast`
-accepts on every node, and with the repaired wrapper check plus `validate(&Ctx::CONSENSUS)`
-the implication is `accepted_obeys_ctx_consensus` -/
+/-- what holds for every context: the descriptor parser accepts only what `from_ast` accepts on
+every node, with a type-B top level -/
 theorem descriptor_accept_imp_constructed (env : KeyEnv) (K : KeyInfo) (ctx : Ctx) (ms : Ms)
     (h : accepts env K ctx .descFromStr ms = true) : accepts env K ctx .fromAst ms = true := by
   simp only [accepts, Bool.and_eq_true] at h ⊢
   simp [h.1]
 
-example : accepts demoEnv demoK .tap .descFromStr (.check (.pkK 200)) = true := by decide
+example : accepts demoEnv demoK .tap .descFromStr (.check (.pkK 200)) = true ∧
+    accepts demoEnv demoK .legacy .descFromStr (.check (.pkK 0)) = true ∧
+    hasDefect_orI (.check (.pkK 0)) = false := by decide
 
 end MsVerif.C12
